@@ -1,6 +1,9 @@
 /-
-C03 — completeness and principality of `infer` (syntactic rows) on the let-free,
-projection-free fragment, up to the unification fuel.
+C03 — completeness and principality of `infer` (syntactic rows) on the projection-free ML
+fragment: var, lam, app, LET WITH GENERALISATION, literals, `#Int<`, if, record/tuple literals,
+arrays, constructors.  Stated for `inferF` (the fuel-parametrised copy of `infer`, `HMFuel.lean`):
+a typable program is accepted for EVERY sufficiently large unification fuel, with a type of which
+every typing is an instance.
 
 On top of the invariant of `HMSound` (`Inv S E`: the threaded substitution is a most general
 solution of the equations so far) this needs the FRESHNESS invariant: every type variable of the
@@ -10,6 +13,7 @@ can be extended on the new variables without disturbing anything.
 import GluonModel.HM
 import GluonModel.Proofs.HM
 import GluonModel.Proofs.HMTerm
+import GluonModel.Proofs.HMFuel
 import GluonModel.Proofs.HMSound
 
 namespace GluonModel.HM.Proofs
@@ -144,19 +148,93 @@ theorem upd_agree (R : Subst) (k : Nat) (t : Ty) : Agree k (upd R k t) R := by
 
 theorem upd_self (R : Subst) (k : Nat) (t : Ty) : upd R k t k = t := by simp [upd]
 
-/-! ### monomorphic environments, exact relation -/
+theorem below_closed {n : Nat} {t : Ty} (h : t.ftv = []) : Below n t := by
+  intro v hv; rw [h] at hv; cases hv
 
-/-- every variable of `Δ` has exactly the one type its (monomorphic) scheme denotes under `R` -/
+theorem agree_refl (n : Nat) (R : Subst) : Agree n R R := fun _ _ => rfl
+
+/-! ### the range of the threaded substitution stays below the counter -/
+
+/-- below every counter from `n` on, `S` maps variables below the counter to types below it
+    (so `S` is the identity from `n` on, and its range on the old variables is below `n`) -/
+def BelowS (n : Nat) (S : Subst) : Prop := ∀ m, n ≤ m → ∀ v, v < m → Below m (S v)
+
+theorem belowS_id (n : Nat) : BelowS n Subst.id := by
+  intro m _ v hv x hx
+  simp only [Subst.id, Ty.ftv, List.mem_singleton] at hx
+  omega
+
+theorem belowS_mono {n m : Nat} (h : n ≤ m) {S : Subst} (hS : BelowS n S) : BelowS m S :=
+  fun k hk => hS k (Nat.le_trans h hk)
+
+theorem below_subst {n : Nat} {S : Subst} {t : Ty} (hS : BelowS n S) (ht : Below n t) :
+    Below n (t.subst S) := by
+  intro x hx
+  obtain ⟨w, hw, hxw⟩ := (mem_ftv_subst S x t).1 hx
+  exact hS n (Nat.le_refl _) w (ht w hw) x hxw
+
+theorem unifySF_belowS (fuel : Nat) (S : Subst) (n : Nat) (a b : Ty) (S' : Subst) (n' : Nat)
+    (hS : BelowS n S) (ha : Below n a) (hb : Below n b)
+    (h : unifySF false fuel S n a b = .ok (S', n')) : BelowS n S' := by
+  unfold unifySF at h
+  split at h
+  · cases h
+  · next U n₁ hu =>
+    injection h with h; injection h with hS' _
+    subst hS'
+    have hr := (unify_inv fuel n _ _ U n₁ ((a.subst S).ftv ++ (b.subst S).ftv) hu
+      (fun x hx => List.mem_append.2 (Or.inl hx)) (fun x hx => List.mem_append.2 (Or.inr hx))).1
+    have hV : ∀ x, x ∈ (a.subst S).ftv ++ (b.subst S).ftv → x < n := by
+      intro x hx
+      rcases List.mem_append.1 hx with hx | hx
+      · exact below_subst hS ha x hx
+      · exact below_subst hS hb x hx
+    intro m hm v hv x hx
+    obtain ⟨w, hw, hxw⟩ := (mem_ftv_subst U x (S v)).1 hx
+    have hwm : w < m := hS m hm v hv w hw
+    rcases hr w x hxw with h | h
+    · omega
+    · exact Nat.lt_of_lt_of_le (hV x h) hm
+
+/-! ### substitutions that agree on a type -/
+
+theorem subst_eq_ftv (σ τ : Subst) (t : Ty) (h : t.subst σ = t.subst τ) :
+    ∀ v, v ∈ t.ftv → σ v = τ v := by
+  induction t with
+  | var n =>
+    intro v hv
+    simp only [Ty.ftv, List.mem_singleton] at hv
+    subst hv
+    exact h
+  | con c => intro v hv; cases hv
+  | empty => intro v hv; cases hv
+  | app f a ihf iha =>
+    simp only [Ty.subst] at h
+    injection h with h₁ h₂
+    intro v hv
+    simp only [Ty.ftv, List.mem_append] at hv
+    rcases hv with hv | hv
+    · exact ihf h₁ v hv
+    · exact iha h₂ v hv
+  | ext l t r iht ihr =>
+    simp only [Ty.subst] at h
+    injection h with _ h₁ h₂
+    intro v hv
+    simp only [Ty.ftv, List.mem_append] at hv
+    rcases hv with hv | hv
+    · exact iht h₁ v hv
+    · exact ihr h₂ v hv
+
+/-! ### environments of schemes: every declared type of a variable is an instance of its scheme -/
+
 def EnvC : SEnv → Env → Subst → Prop
   | [], [], _ => True
-  | (x, P) :: Δ, (y, s) :: Γ, R =>
-    x = y ∧ s.vars = [] ∧ (∀ τ, P τ → τ = s.ty.subst R) ∧ EnvC Δ Γ R
+  | (x, P) :: Δ, (y, s) :: Γ, R => x = y ∧ (∀ τ, P τ → Den s R τ) ∧ EnvC Δ Γ R
   | _, _, _ => False
 
 theorem envC_lookup : ∀ (Δ : SEnv) (Γ : Env) (R : Subst) (x : String) (P : Ty → Prop),
     EnvC Δ Γ R → slookup x Δ = some P →
-    ∃ s, lookup x Γ = some s ∧ s.vars = [] ∧ (∀ τ, P τ → τ = s.ty.subst R) ∧
-      ∃ y, (y, s) ∈ Γ := by
+    ∃ s, lookup x Γ = some s ∧ (∀ τ, P τ → Den s R τ) ∧ ∃ y, (y, s) ∈ Γ := by
   intro Δ
   induction Δ with
   | nil => intro Γ R x P _ h; simp [slookup] at h
@@ -168,18 +246,23 @@ theorem envC_lookup : ∀ (Δ : SEnv) (Γ : Env) (R : Subst) (x : String) (P : T
     | cons p Γ =>
       obtain ⟨y, s⟩ := p
       simp only [EnvC] at hrel
-      obtain ⟨hzy, hv, hP, hrest⟩ := hrel
+      obtain ⟨hzy, hP, hrest⟩ := hrel
       subst hzy
       simp only [slookup] at h
       simp only [lookup]
       split at h
       · next hx =>
         injection h with h; subst h
-        exact ⟨s, by simp [hx], hv, hP, z, List.mem_cons_self ..⟩
+        exact ⟨s, by simp [hx], hP, z, List.mem_cons_self ..⟩
       · next hx =>
         simp only [hx, if_false]
-        obtain ⟨s', hl, hv', hP', y', hm⟩ := ih Γ R x P hrest h
-        exact ⟨s', hl, hv', hP', y', List.mem_cons_of_mem _ hm⟩
+        obtain ⟨s', hl, hP', y', hm⟩ := ih Γ R x P hrest h
+        exact ⟨s', hl, hP', y', List.mem_cons_of_mem _ hm⟩
+
+theorem den_agree {n : Nat} {s : Scheme} {R R' : Subst} {τ : Ty} (hs : Below n s.ty)
+    (ha : Agree n R' R) (h : Den s R τ) : Den s R' τ := by
+  obtain ⟨R₀, hR₀, hτ⟩ := h
+  exact ⟨R₀, fun v hv hnv => (hR₀ v hv hnv).trans (ha v (hs v hv)).symm, hτ⟩
 
 theorem envC_agree : ∀ (Δ : SEnv) (Γ : Env) (R R' : Subst) (n : Nat),
     BelowΓ n Γ → Agree n R' R → EnvC Δ Γ R → EnvC Δ Γ R' := by
@@ -194,18 +277,129 @@ theorem envC_agree : ∀ (Δ : SEnv) (Γ : Env) (R R' : Subst) (n : Nat),
     | cons p Γ =>
       obtain ⟨y, s⟩ := p
       simp only [EnvC] at hrel ⊢
-      obtain ⟨hzy, hv, hP, hrest⟩ := hrel
-      refine ⟨hzy, hv, ?_, ih Γ R R' n (fun p hp => hb p (List.mem_cons_of_mem _ hp)) ha hrest⟩
-      intro τ hτ
-      rw [hP τ hτ]
-      exact (subst_agree (hb (y, s) (List.mem_cons_self ..)) ha).symm
+      obtain ⟨hzy, hP, hrest⟩ := hrel
+      exact ⟨hzy, fun τ hτ => den_agree (hb (y, s) (List.mem_cons_self ..)) ha (hP τ hτ),
+        ih Γ R R' n (fun p hp => hb p (List.mem_cons_of_mem _ hp)) ha hrest⟩
 
-theorem inst_mono_vars (s : Scheme) (n : Nat) (h : s.vars = []) : inst s n = (s.ty, n) := by
-  simp only [inst, h, indexOf, List.length_nil, Nat.add_zero]
-  congr 1
-  exact subst_id s.ty
+/-! ### instantiation of a scheme with a block of fresh variables -/
 
-/-! ### one unification step -/
+/-- the renaming `inst` applies -/
+def instSub (s : Scheme) (n : Nat) : Subst := fun v =>
+  match indexOf v s.vars 0 with
+  | some i => .var (n + i)
+  | none => .var v
+
+theorem inst_fst (s : Scheme) (n : Nat) : (inst s n).1 = s.ty.subst (instSub s n) := rfl
+theorem inst_snd (s : Scheme) (n : Nat) : (inst s n).2 = n + s.vars.length := rfl
+
+theorem indexOf_some (v : Nat) : ∀ (vs : List Nat) (k i : Nat), indexOf v vs k = some i →
+    k ≤ i ∧ i < k + vs.length ∧ vs.getD (i - k) 0 = v := by
+  intro vs
+  induction vs with
+  | nil => intro k i h; simp [indexOf] at h
+  | cons w rest ih =>
+    intro k i h
+    simp only [indexOf] at h
+    split at h
+    · next hvw =>
+      injection h with h
+      subst h
+      simp [hvw]
+    · obtain ⟨h₁, h₂, h₃⟩ := ih (k + 1) i h
+      refine ⟨by omega, by simp only [List.length_cons]; omega, ?_⟩
+      have : i - k = (i - (k + 1)) + 1 := by omega
+      rw [this, List.getD_cons_succ]
+      exact h₃
+
+theorem indexOf_none_not_mem (v : Nat) : ∀ (vs : List Nat) (k : Nat), indexOf v vs k = none → v ∉ vs := by
+  intro vs
+  induction vs with
+  | nil => intro k _ h; cases h
+  | cons w rest ih =>
+    intro k h
+    simp only [indexOf] at h
+    split at h
+    · cases h
+    · next hvw =>
+      intro hm
+      cases hm with
+      | head => exact hvw rfl
+      | tail _ hm => exact ih (k + 1) h hm
+
+/-- a solution extended on the block `n … n + |vars|` by the instance `R₀` of the quantified variables -/
+def updBlock (R : Subst) (n : Nat) (vs : List Nat) (R₀ : Subst) : Subst := fun w =>
+  if n ≤ w ∧ w < n + vs.length then R₀ (vs.getD (w - n) 0) else R w
+
+theorem updBlock_agree (R : Subst) (n : Nat) (vs : List Nat) (R₀ : Subst) :
+    Agree n (updBlock R n vs R₀) R := by
+  intro v hv
+  have : ¬ (n ≤ v ∧ v < n + vs.length) := by omega
+  simp only [updBlock, this, if_false]
+
+theorem inst_below (s : Scheme) (n : Nat) (hs : Below n s.ty) :
+    Below (n + s.vars.length) (inst s n).1 := by
+  intro x hx
+  rw [inst_fst] at hx
+  obtain ⟨w, hw, hxw⟩ := (mem_ftv_subst _ x s.ty).1 hx
+  unfold instSub at hxw
+  cases hidx : indexOf w s.vars 0 with
+  | none =>
+    rw [hidx] at hxw
+    simp only [Ty.ftv, List.mem_singleton] at hxw
+    have := hs w hw
+    omega
+  | some i =>
+    rw [hidx] at hxw
+    simp only [Ty.ftv, List.mem_singleton] at hxw
+    have := (indexOf_some w s.vars 0 i hidx).2.1
+    omega
+
+/-- the instance `R₀` of the scheme is what the extended solution makes of `inst s n` -/
+theorem inst_updBlock (s : Scheme) (n : Nat) (R R₀ : Subst) (hs : Below n s.ty)
+    (hR₀ : ∀ v, v ∈ s.ty.ftv → v ∉ s.vars → R₀ v = R v) :
+    (inst s n).1.subst (updBlock R n s.vars R₀) = s.ty.subst R₀ := by
+  rw [inst_fst, ← subst_comp]
+  apply subst_congr_ftv
+  intro v hv
+  show (instSub s n v).subst (updBlock R n s.vars R₀) = R₀ v
+  unfold instSub
+  cases hidx : indexOf v s.vars 0 with
+  | none =>
+    have hlt := hs v hv
+    have : ¬ (n ≤ v ∧ v < n + s.vars.length) := by omega
+    simp only [Ty.subst, updBlock, this, if_false]
+    exact (hR₀ v hv (indexOf_none_not_mem v s.vars 0 hidx)).symm
+  | some i =>
+    obtain ⟨_, h₂, h₃⟩ := indexOf_some v s.vars 0 i hidx
+    have : n ≤ n + i ∧ n + i < n + s.vars.length := by omega
+    simp only [Ty.subst, updBlock, this, and_self, if_true]
+    have e : n + i - n = i := by omega
+    rw [e]
+    simpa using congrArg R₀ h₃
+
+/-! ### one unification step: for every sufficiently large fuel -/
+
+theorem unifySF_complete (S : Subst) (n : Nat) (a b : Ty) (E : Eqs) (R : Subst)
+    (hi : Inv S E) (hR : Sol R E) (hab : a.subst R = b.subst R)
+    (hS : BelowS n S) (ha : Below n a) (hb : Below n b) :
+    ∃ S' N, (∀ fuel, N ≤ fuel → unifySF false fuel S n a b = .ok (S', n)) ∧
+      Inv S' ((a, b) :: E) ∧ BelowS n S' := by
+  obtain ⟨N, r, hr, hall⟩ := unify_total n (a.subst S) (b.subst S)
+  match r, hr, hall with
+  | .error e, hr, hall =>
+    exfalso
+    have he : e ≠ .fuel := fun h => hr (by rw [h])
+    apply unify_error_no_unifier N n _ _ R e he (hall N (Nat.le_refl _))
+    rw [inv_absorb S E hi R hR a, inv_absorb S E hi R hR b]
+    exact hab
+  | .ok (U, n'), _, hall =>
+    have hn : n' = n := unify_counter N n _ _ U n' (hall N (Nat.le_refl _))
+    subst hn
+    have hu : ∀ fuel, N ≤ fuel → unifySF false fuel S n' a b = .ok (U.comp S, n') := by
+      intro fuel hf
+      simp only [unifySF, hall fuel hf]
+    exact ⟨U.comp S, N, hu, unifySF_inv N S n' a b _ n' E (hu N (Nat.le_refl _)) hi,
+      unifySF_belowS N S n' a b _ n' hS ha hb (hu N (Nat.le_refl _))⟩
 
 theorem unifyS_complete (S : Subst) (n : Nat) (a b : Ty) (E : Eqs) (R : Subst)
     (hi : Inv S E) (hR : Sol R E) (hab : a.subst R = b.subst R) :
@@ -238,10 +432,9 @@ theorem unifyS_complete (S : Subst) (n : Nat) (a b : Ty) (E : Eqs) (R : Subst)
     subst hn
     exact ⟨S', rfl, unifyS_inv S n' a b S' n' E hu hi⟩
 
-
 /-! ### the fragment and the statement -/
 
-/-- let-free and projection-free expressions -/
+/-- let-free and projection-free expressions (the fragment of round 4) -/
 def LetProjFree : Expr → Prop
   | .lam _ b => LetProjFree b
   | .app f a => LetProjFree f ∧ LetProjFree a
@@ -254,76 +447,101 @@ def LetProjFree : Expr → Prop
   | .asnoc i e => LetProjFree i ∧ LetProjFree e
   | _ => True
 
-/-- the outcome of a complete run: out of fuel, or success with a type of which the given typing
-    is an instance, all invariants re-established -/
+/-- the ML fragment: everything but field projection (`let` included) -/
+def NoProj : Expr → Prop
+  | .lam _ b => NoProj b
+  | .app f a => NoProj f ∧ NoProj a
+  | .letE _ e b => NoProj e ∧ NoProj b
+  | .ifE c t e => NoProj c ∧ NoProj t ∧ NoProj e
+  | .lt a b => NoProj a ∧ NoProj b
+  | .fcons _ e rest => NoProj e ∧ NoProj rest
+  | .rcd f => NoProj f
+  | .proj _ _ => False
+  | .asnoc i e => NoProj i ∧ NoProj e
+  | _ => True
+
+theorem noProj_of_letProjFree : ∀ e : Expr, LetProjFree e → NoProj e := by
+  intro e
+  induction e with
+  | lam x b ih => exact ih
+  | app f a ihf iha => exact fun h => ⟨ihf h.1, iha h.2⟩
+  | letE x e b _ _ => intro h; exact absurd h (by simp [LetProjFree])
+  | ifE c t e ihc iht ihe => exact fun h => ⟨ihc h.1, iht h.2.1, ihe h.2.2⟩
+  | lt a b iha ihb => exact fun h => ⟨iha h.1, ihb h.2⟩
+  | fcons l e rest ihe ihr => exact fun h => ⟨ihe h.1, ihr h.2⟩
+  | rcd f ih => exact ih
+  | proj e l _ => intro h; exact absurd h (by simp [LetProjFree])
+  | asnoc i e ihi ihe => exact fun h => ⟨ihi h.1, ihe h.2⟩
+  | _ => intro _; trivial
+
+/-- the outcome of a complete run: for every sufficiently large fuel, success with one and the same
+    type, of which the given typing is an instance; all invariants re-established -/
 def CRes (Γ : Env) (e : Expr) (S : Subst) (n : Nat) (R : Subst) (τ' : Ty) : Prop :=
-  infer false Γ e S n = .error .fuel ∨
-  ∃ τ S' n' E' R', infer false Γ e S n = .ok (τ, S', n') ∧ Inv S' E' ∧ Sol R' E' ∧
-    BelowE n' E' ∧ n ≤ n' ∧ Below n' τ ∧ Agree n R' R ∧ τ.subst R' = τ'
+  ∃ τ S' n' E' R' N, (∀ fuel, N ≤ fuel → inferF false fuel Γ e S n = .ok (τ, S', n')) ∧
+    Inv S' E' ∧ Sol R' E' ∧ BelowE n' E' ∧ BelowS n' S' ∧ n ≤ n' ∧ Below n' τ ∧ Agree n R' R ∧
+    τ.subst R' = τ'
 
 def CompleteAt (e : Expr) : Prop :=
   ∀ (Γ : Env) (S : Subst) (n : Nat) (E : Eqs) (R : Subst) (Δ : SEnv) (τ' : Ty),
-    LetProjFree e → Inv S E → Sol R E → BelowE n E → BelowΓ n Γ → EnvC Δ Γ R →
+    NoProj e → Inv S E → Sol R E → BelowE n E → BelowS n S → BelowΓ n Γ → EnvC Δ Γ R →
     HasType Δ e τ' → CRes Γ e S n R τ'
 
-theorem below_closed {n : Nat} {t : Ty} (h : t.ftv = []) : Below n t := by
-  intro v hv; rw [h] at hv; cases hv
-
-theorem agree_refl (n : Nat) (R : Subst) : Agree n R R := fun _ _ => rfl
-
 theorem complete_var (x : String) : CompleteAt (.var x) := by
-  intro Γ S n E R Δ τ' _ hi hR hbE hbΓ hΔ hty
+  intro Γ S n E R Δ τ' _ hi hR hbE hbS hbΓ hΔ hty
   cases hty with
   | var _ _ P _ hl hp =>
-    obtain ⟨s, hlk, hv, hP, y, hm⟩ := envC_lookup Δ Γ R x P hΔ hl
-    have hinf : infer false Γ (.var x) S n = .ok (s.ty, S, n) := by
-      simp only [infer, hlk, inst_mono_vars s n hv]
-    exact Or.inr ⟨_, _, _, E, R, hinf, hi, hR, hbE, Nat.le_refl _, hbΓ (y, s) hm, agree_refl n R,
-      (hP τ' hp).symm⟩
+    obtain ⟨s, hlk, hP, y, hm⟩ := envC_lookup Δ Γ R x P hΔ hl
+    obtain ⟨R₀, hR₀, hτ'⟩ := hP τ' hp
+    have hs : Below n s.ty := hbΓ (y, s) hm
+    have hag := updBlock_agree R n s.vars R₀
+    have hle : n ≤ n + s.vars.length := Nat.le_add_right _ _
+    refine ⟨(inst s n).1, S, n + s.vars.length, E, updBlock R n s.vars R₀, 0, ?_, hi,
+      sol_agree hbE hag hR, belowE_mono hle hbE, belowS_mono hle hbS, hle, inst_below s n hs, hag, ?_⟩
+    · intro fuel _
+      simp only [inferF, hlk, inst_snd]
+    · rw [inst_updBlock s n R R₀ hs hR₀, hτ']
 
 theorem complete_lam (x : String) (b : Expr) (ih : CompleteAt b) : CompleteAt (.lam x b) := by
-  intro Γ S n E R Δ τ' hfr hi hR hbE hbΓ hΔ hty
+  intro Γ S n E R Δ τ' hfr hi hR hbE hbS hbΓ hΔ hty
   cases hty with
   | lam _ _ _ a τb hb =>
     have hag₀ : Agree n (upd R n a) R := upd_agree R n a
     have hΔ' : EnvC ((x, fun t => t = a) :: Δ) ((x, Scheme.mono (.var n)) :: Γ) (upd R n a) := by
       simp only [EnvC]
-      refine ⟨trivial, rfl, ?_, envC_agree Δ Γ R _ n hbΓ hag₀ hΔ⟩
+      refine ⟨trivial, ?_, envC_agree Δ Γ R _ n hbΓ hag₀ hΔ⟩
       intro τ hτ
       rw [hτ]
-      simp [Scheme.mono, Ty.subst, upd]
+      exact ⟨upd R n a, fun _ _ _ => rfl, by simp [Scheme.mono, Ty.subst, upd]⟩
     have hbΓ' : BelowΓ (n + 1) ((x, Scheme.mono (.var n)) :: Γ) := by
       intro p hp
       cases hp with
       | head => intro v hv; simp [Scheme.mono, Ty.ftv] at hv; omega
       | tail _ hp => exact below_mono (Nat.le_succ n) (hbΓ p hp)
-    rcases ih _ S (n + 1) E (upd R n a) _ τb hfr hi (sol_agree hbE hag₀ hR)
-      (belowE_mono (Nat.le_succ n) hbE) hbΓ' hΔ' hb with h₁ | ⟨τ₀, S', n', E', R', h₁, hi', hR', hbE', hn', hbτ, hag, heq⟩
-    · exact Or.inl (by simp only [infer, h₁])
-    · have hinf : infer false Γ (.lam x b) S n = .ok (fn (.var n) τ₀, S', n') := by
-        simp only [infer, h₁]
-      refine Or.inr ⟨_, _, _, E', R', hinf, hi', hR', hbE', by omega, ?_, ?_, ?_⟩
-      · intro v hv
-        simp only [fn, Ty.ftv, List.mem_append, List.mem_singleton, List.nil_append] at hv
-        rcases hv with hv | hv
-        · omega
-        · exact hbτ v hv
-      · exact agree_trans (agree_mono (Nat.le_succ n) hag) hag₀
-      · have : R' n = a := by rw [hag n (Nat.lt_succ_self n)]; exact upd_self R n a
-        simp only [fn, Ty.subst, this, heq]
+    obtain ⟨τ₀, S', n', E', R', N, h₁, hi', hR', hbE', hbS', hn', hbτ, hag, heq⟩ :=
+      ih _ S (n + 1) E (upd R n a) _ τb hfr hi (sol_agree hbE hag₀ hR)
+        (belowE_mono (Nat.le_succ n) hbE) (belowS_mono (Nat.le_succ n) hbS) hbΓ' hΔ' hb
+    refine ⟨fn (.var n) τ₀, S', n', E', R', N, ?_, hi', hR', hbE', hbS', by omega, ?_, ?_, ?_⟩
+    · intro fuel hf
+      simp only [inferF, h₁ fuel hf]
+    · intro v hv
+      simp only [fn, Ty.ftv, List.mem_append, List.mem_singleton, List.nil_append] at hv
+      rcases hv with hv | hv
+      · omega
+      · exact hbτ v hv
+    · exact agree_trans (agree_mono (Nat.le_succ n) hag) hag₀
+    · have : R' n = a := by rw [hag n (Nat.lt_succ_self n)]; exact upd_self R n a
+      simp only [fn, Ty.subst, this, heq]
 
 theorem complete_app (f a : Expr) (ihf : CompleteAt f) (iha : CompleteAt a) :
     CompleteAt (.app f a) := by
-  intro Γ S n E R Δ τ' hfr hi hR hbE hbΓ hΔ hty
+  intro Γ S n E R Δ τ' hfr hi hR hbE hbS hbΓ hΔ hty
   cases hty with
   | app _ _ _ ta _ htf hta =>
-    rcases ihf Γ S n E R Δ _ hfr.1 hi hR hbE hbΓ hΔ htf with
-      h₁ | ⟨τf, S₁, n₁, E₁, R₁, h₁, hi₁, hR₁, hbE₁, hn₁, hbτf, hag₁, heq₁⟩
-    · exact Or.inl (by simp only [infer, h₁])
-    rcases iha Γ S₁ n₁ E₁ R₁ Δ _ hfr.2 hi₁ hR₁ hbE₁ (belowΓ_mono hn₁ hbΓ)
-      (envC_agree Δ Γ R R₁ n hbΓ hag₁ hΔ) hta with
-      h₂ | ⟨τa, S₂, n₂, E₂, R₂, h₂, hi₂, hR₂, hbE₂, hn₂, hbτa, hag₂, heq₂⟩
-    · exact Or.inl (by simp only [infer, h₁, h₂])
+    obtain ⟨τf, S₁, n₁, E₁, R₁, N₁, h₁, hi₁, hR₁, hbE₁, hbS₁, hn₁, hbτf, hag₁, heq₁⟩ :=
+      ihf Γ S n E R Δ _ hfr.1 hi hR hbE hbS hbΓ hΔ htf
+    obtain ⟨τa, S₂, n₂, E₂, R₂, N₂, h₂, hi₂, hR₂, hbE₂, hbS₂, hn₂, hbτa, hag₂, heq₂⟩ :=
+      iha Γ S₁ n₁ E₁ R₁ Δ _ hfr.2 hi₁ hR₁ hbE₁ hbS₁ (belowΓ_mono hn₁ hbΓ)
+        (envC_agree Δ Γ R R₁ n hbΓ hag₁ hΔ) hta
     -- extend the solution on the fresh result variable
     have hag₃ : Agree n₂ (upd R₂ n₂ τ') R₂ := upd_agree R₂ n₂ τ'
     have hbτf₂ : Below n₂ τf := below_mono hn₂ hbτf
@@ -331,97 +549,146 @@ theorem complete_app (f a : Expr) (ihf : CompleteAt f) (iha : CompleteAt a) :
       rw [subst_agree hbτf₂ hag₃, subst_agree hbτf hag₂, heq₁]
       simp only [fn, Ty.subst, upd_self]
       rw [subst_agree hbτa hag₃, heq₂]
-    rcases unifyS_complete S₂ (n₂ + 1) τf (fn τa (.var n₂)) E₂ (upd R₂ n₂ τ') hi₂
-      (sol_agree hbE₂ hag₃ hR₂) hab with h₃ | ⟨S₃, h₃, hi₃⟩
-    · exact Or.inl (by simp only [infer, h₁, h₂, h₃])
-    have hinf : infer false Γ (.app f a) S n = .ok (.var n₂, S₃, n₂ + 1) := by
-      simp only [infer, h₁, h₂, h₃]
-    refine Or.inr ⟨_, _, _, _, upd R₂ n₂ τ', hinf, hi₃,
-      sol_cons hab (sol_agree hbE₂ hag₃ hR₂), ?_, by omega, ?_, ?_, ?_⟩
-    · apply belowE_cons (below_mono (Nat.le_succ _) hbτf₂) _ (belowE_mono (Nat.le_succ _) hbE₂)
+    have hbfn : Below (n₂ + 1) (fn τa (.var n₂)) := by
       intro v hv
       simp only [fn, Ty.ftv, List.mem_append, List.mem_singleton, List.nil_append] at hv
       rcases hv with hv | hv
       · exact Nat.lt_succ_of_lt (hbτa v hv)
       · omega
+    obtain ⟨S₃, N₃, h₃, hi₃, hbS₃⟩ := unifySF_complete S₂ (n₂ + 1) τf (fn τa (.var n₂)) E₂
+      (upd R₂ n₂ τ') hi₂ (sol_agree hbE₂ hag₃ hR₂) hab (belowS_mono (Nat.le_succ _) hbS₂)
+      (below_mono (Nat.le_succ _) hbτf₂) hbfn
+    refine ⟨.var n₂, S₃, n₂ + 1, _, upd R₂ n₂ τ', N₁ + N₂ + N₃, ?_, hi₃,
+      sol_cons hab (sol_agree hbE₂ hag₃ hR₂), ?_, hbS₃, by omega, ?_, ?_, ?_⟩
+    · intro fuel hf
+      simp only [inferF, h₁ fuel (by omega), h₂ fuel (by omega), h₃ fuel (by omega)]
+    · exact belowE_cons (below_mono (Nat.le_succ _) hbτf₂) hbfn (belowE_mono (Nat.le_succ _) hbE₂)
     · intro v hv; simp only [Ty.ftv, List.mem_singleton] at hv; omega
     · exact agree_trans (agree_mono (by omega) hag₃)
         (agree_trans (agree_mono hn₁ hag₂) hag₁)
     · simp only [Ty.subst, upd_self]
 
+theorem complete_let (x : String) (e b : Expr) (ihe : CompleteAt e) (ihb : CompleteAt b) :
+    CompleteAt (.letE x e b) := by
+  intro Γ S n E R Δ τ' hfr hi hR hbE hbS hbΓ hΔ hty
+  cases hty with
+  | letE _ _ _ _ P _ hne hall hb =>
+    obtain ⟨τ₀, hp₀⟩ := hne
+    obtain ⟨τ₁, S₁, n₁, E₁, R₁, N₁, h₁, hi₁, hR₁, hbE₁, hbS₁, hn₁, hbτ₁, hag₁, heq₁⟩ :=
+      ihe Γ S n E R Δ τ₀ hfr.1 hi hR hbE hbS hbΓ hΔ (hall τ₀ hp₀)
+    have hbσ : Below n₁ (generalize S₁ Γ τ₁).ty := below_subst hbS₁ hbτ₁
+    have hΔ₁ : EnvC Δ Γ R₁ := envC_agree Δ Γ R R₁ n hbΓ hag₁ hΔ
+    -- the generalised scheme denotes (at least) every type of the bound expression
+    have hden : ∀ t, P t → Den (generalize S₁ Γ τ₁) R₁ t := by
+      intro t ht
+      obtain ⟨τ₁', S₁', n₁', E₁', R₁', N₁', h₁', hi₁', hR₁', _, _, _, _, hag₁', heq₁'⟩ :=
+        ihe Γ S n E R Δ t hfr.1 hi hR hbE hbS hbΓ hΔ (hall t ht)
+      have hsame := (h₁ (N₁ + N₁') (by omega)).symm.trans (h₁' (N₁ + N₁') (by omega))
+      injection hsame with hsame
+      injection hsame with e₁ hsame
+      injection hsame with e₂ e₃
+      subst e₁; subst e₂; subst e₃
+      refine ⟨R₁', ?_, ?_⟩
+      · intro v hv hnv
+        have hvU : v ∈ Γ.ftvUnder S₁ := by
+          apply Classical.byContradiction
+          intro hno
+          apply hnv
+          simp only [generalize, List.mem_filter, List.mem_eraseDups]
+          exact ⟨hv, by simpa using hno⟩
+        simp only [Env.ftvUnder, List.mem_flatMap] at hvU
+        obtain ⟨p, hp, u, hu, hvu⟩ := hvU
+        have hu_lt : u < n := by
+          apply hbΓ p hp u
+          simp only [Scheme.ftv, List.mem_filter] at hu
+          exact hu.1
+        have : (S₁ u).subst R₁' = (S₁ u).subst R₁ := by
+          rw [hi₁'.2 R₁' hR₁' u, hi₁.2 R₁ hR₁ u, hag₁' u hu_lt, hag₁ u hu_lt]
+        exact subst_eq_ftv R₁' R₁ (S₁ u) this v hvu
+      · rw [← heq₁']
+        exact (inv_absorb S₁ E₁' hi₁' R₁' hR₁' τ₁).symm
+    have hΔ' : EnvC ((x, P) :: Δ) ((x, generalize S₁ Γ τ₁) :: Γ) R₁ := by
+      simp only [EnvC]
+      exact ⟨trivial, hden, hΔ₁⟩
+    have hbΓ' : BelowΓ n₁ ((x, generalize S₁ Γ τ₁) :: Γ) := by
+      intro p hp
+      cases hp with
+      | head => exact hbσ
+      | tail _ hp => exact below_mono hn₁ (hbΓ p hp)
+    obtain ⟨τ, S₂, n₂, E₂, R₂, N₂, h₂, hi₂, hR₂, hbE₂, hbS₂, hn₂, hbτ, hag₂, heq₂⟩ :=
+      ihb _ S₁ n₁ E₁ R₁ _ τ' hfr.2 hi₁ hR₁ hbE₁ hbS₁ hbΓ' hΔ' hb
+    refine ⟨τ, S₂, n₂, E₂, R₂, N₁ + N₂, ?_, hi₂, hR₂, hbE₂, hbS₂, by omega, hbτ,
+      agree_trans (agree_mono hn₁ hag₂) hag₁, heq₂⟩
+    intro fuel hf
+    simp only [inferF, h₁ fuel (by omega)]
+    exact h₂ fuel (by omega)
 
 theorem complete_lt (a b : Expr) (iha : CompleteAt a) (ihb : CompleteAt b) :
     CompleteAt (.lt a b) := by
-  intro Γ S n E R Δ τ' hfr hi hR hbE hbΓ hΔ hty
+  intro Γ S n E R Δ τ' hfr hi hR hbE hbS hbΓ hΔ hty
   cases hty with
   | lt _ _ _ hta htb =>
-    rcases iha Γ S n E R Δ _ hfr.1 hi hR hbE hbΓ hΔ hta with
-      h₁ | ⟨τa, S₁, n₁, E₁, R₁, h₁, hi₁, hR₁, hbE₁, hn₁, hbτa, hag₁, heq₁⟩
-    · exact Or.inl (by simp only [infer, h₁])
+    obtain ⟨τa, S₁, n₁, E₁, R₁, N₁, h₁, hi₁, hR₁, hbE₁, hbS₁, hn₁, hbτa, hag₁, heq₁⟩ :=
+      iha Γ S n E R Δ _ hfr.1 hi hR hbE hbS hbΓ hΔ hta
     have hab₁ : tInt.subst R₁ = τa.subst R₁ := by rw [heq₁]; rfl
-    rcases unifyS_complete S₁ n₁ tInt τa E₁ R₁ hi₁ hR₁ hab₁ with h₂ | ⟨S₂, h₂, hi₂⟩
-    · exact Or.inl (by simp only [infer, h₁, h₂])
+    obtain ⟨S₂, N₂, h₂, hi₂, hbS₂⟩ := unifySF_complete S₁ n₁ tInt τa E₁ R₁ hi₁ hR₁ hab₁ hbS₁
+      (below_closed rfl) hbτa
     have hbE₂ : BelowE n₁ ((tInt, τa) :: E₁) := belowE_cons (below_closed rfl) hbτa hbE₁
-    rcases ihb Γ S₂ n₁ _ R₁ Δ _ hfr.2 hi₂ (sol_cons hab₁ hR₁) hbE₂ (belowΓ_mono hn₁ hbΓ)
-      (envC_agree Δ Γ R R₁ n hbΓ hag₁ hΔ) htb with
-      h₃ | ⟨τb, S₃, n₃, E₃, R₃, h₃, hi₃, hR₃, hbE₃, hn₃, hbτb, hag₃, heq₃⟩
-    · exact Or.inl (by simp only [infer, h₁, h₂, h₃])
+    obtain ⟨τb, S₃, n₃, E₃, R₃, N₃, h₃, hi₃, hR₃, hbE₃, hbS₃, hn₃, hbτb, hag₃, heq₃⟩ :=
+      ihb Γ S₂ n₁ _ R₁ Δ _ hfr.2 hi₂ (sol_cons hab₁ hR₁) hbE₂ hbS₂ (belowΓ_mono hn₁ hbΓ)
+        (envC_agree Δ Γ R R₁ n hbΓ hag₁ hΔ) htb
     have hab₃ : tInt.subst R₃ = τb.subst R₃ := by rw [heq₃]; rfl
-    rcases unifyS_complete S₃ n₃ tInt τb E₃ R₃ hi₃ hR₃ hab₃ with h₄ | ⟨S₄, h₄, hi₄⟩
-    · exact Or.inl (by simp only [infer, h₁, h₂, h₃, h₄])
-    have hinf : infer false Γ (.lt a b) S n = .ok (tBool, S₄, n₃) := by
-      simp only [infer, h₁, h₂, h₃, h₄]
-    exact Or.inr ⟨_, _, _, _, R₃, hinf, hi₄, sol_cons hab₃ hR₃,
-      belowE_cons (below_closed rfl) hbτb hbE₃, by omega, below_closed rfl,
+    obtain ⟨S₄, N₄, h₄, hi₄, hbS₄⟩ := unifySF_complete S₃ n₃ tInt τb E₃ R₃ hi₃ hR₃ hab₃ hbS₃
+      (below_closed rfl) hbτb
+    refine ⟨tBool, S₄, n₃, _, R₃, N₁ + N₂ + N₃ + N₄, ?_, hi₄, sol_cons hab₃ hR₃,
+      belowE_cons (below_closed rfl) hbτb hbE₃, hbS₄, by omega, below_closed rfl,
       agree_trans (agree_mono hn₁ hag₃) hag₁, rfl⟩
+    intro fuel hf
+    simp only [inferF, h₁ fuel (by omega), h₂ fuel (by omega), h₃ fuel (by omega), h₄ fuel (by omega)]
 
 theorem complete_if (c t e : Expr) (ihc : CompleteAt c) (iht : CompleteAt t) (ihe : CompleteAt e) :
     CompleteAt (.ifE c t e) := by
-  intro Γ S n E R Δ τ' hfr hi hR hbE hbΓ hΔ hty
+  intro Γ S n E R Δ τ' hfr hi hR hbE hbS hbΓ hΔ hty
   cases hty with
   | ifE _ _ _ _ _ htc htt hte =>
-    rcases ihc Γ S n E R Δ _ hfr.1 hi hR hbE hbΓ hΔ htc with
-      h₁ | ⟨τc, S₁, n₁, E₁, R₁, h₁, hi₁, hR₁, hbE₁, hn₁, hbτc, hag₁, heq₁⟩
-    · exact Or.inl (by simp only [infer, h₁])
+    obtain ⟨τc, S₁, n₁, E₁, R₁, N₁, h₁, hi₁, hR₁, hbE₁, hbS₁, hn₁, hbτc, hag₁, heq₁⟩ :=
+      ihc Γ S n E R Δ _ hfr.1 hi hR hbE hbS hbΓ hΔ htc
     have hab₁ : tBool.subst R₁ = τc.subst R₁ := by rw [heq₁]; rfl
-    rcases unifyS_complete S₁ n₁ tBool τc E₁ R₁ hi₁ hR₁ hab₁ with h₂ | ⟨S₂, h₂, hi₂⟩
-    · exact Or.inl (by simp only [infer, h₁, h₂])
+    obtain ⟨S₂, N₂, h₂, hi₂, hbS₂⟩ := unifySF_complete S₁ n₁ tBool τc E₁ R₁ hi₁ hR₁ hab₁ hbS₁
+      (below_closed rfl) hbτc
     have hbE₂ : BelowE n₁ ((tBool, τc) :: E₁) := belowE_cons (below_closed rfl) hbτc hbE₁
     have hΔ₁ := envC_agree Δ Γ R R₁ n hbΓ hag₁ hΔ
     have hbΓ₁ := belowΓ_mono hn₁ hbΓ
-    rcases iht Γ S₂ n₁ _ R₁ Δ _ hfr.2.1 hi₂ (sol_cons hab₁ hR₁) hbE₂ hbΓ₁ hΔ₁ htt with
-      h₃ | ⟨τt, S₃, n₃, E₃, R₃, h₃, hi₃, hR₃, hbE₃, hn₃, hbτt, hag₃, heq₃⟩
-    · exact Or.inl (by simp only [infer, h₁, h₂, h₃])
-    rcases ihe Γ S₃ n₃ E₃ R₃ Δ _ hfr.2.2 hi₃ hR₃ hbE₃ (belowΓ_mono hn₃ hbΓ₁)
-      (envC_agree Δ Γ R₁ R₃ n₁ hbΓ₁ hag₃ hΔ₁) hte with
-      h₄ | ⟨τe, S₄, n₄, E₄, R₄, h₄, hi₄, hR₄, hbE₄, hn₄, hbτe, hag₄, heq₄⟩
-    · exact Or.inl (by simp only [infer, h₁, h₂, h₃, h₄])
+    obtain ⟨τt, S₃, n₃, E₃, R₃, N₃, h₃, hi₃, hR₃, hbE₃, hbS₃, hn₃, hbτt, hag₃, heq₃⟩ :=
+      iht Γ S₂ n₁ _ R₁ Δ _ hfr.2.1 hi₂ (sol_cons hab₁ hR₁) hbE₂ hbS₂ hbΓ₁ hΔ₁ htt
+    obtain ⟨τe, S₄, n₄, E₄, R₄, N₄, h₄, hi₄, hR₄, hbE₄, hbS₄, hn₄, hbτe, hag₄, heq₄⟩ :=
+      ihe Γ S₃ n₃ E₃ R₃ Δ _ hfr.2.2 hi₃ hR₃ hbE₃ hbS₃ (belowΓ_mono hn₃ hbΓ₁)
+        (envC_agree Δ Γ R₁ R₃ n₁ hbΓ₁ hag₃ hΔ₁) hte
     have hτt₄ : τt.subst R₄ = τ' := by rw [subst_agree hbτt hag₄, heq₃]
     have hab₅ : τt.subst R₄ = τe.subst R₄ := by rw [hτt₄, heq₄]
-    rcases unifyS_complete S₄ n₄ τt τe E₄ R₄ hi₄ hR₄ hab₅ with h₅ | ⟨S₅, h₅, hi₅⟩
-    · exact Or.inl (by simp only [infer, h₁, h₂, h₃, h₄, h₅])
-    have hinf : infer false Γ (.ifE c t e) S n = .ok (τt, S₅, n₄) := by
-      simp only [infer, h₁, h₂, h₃, h₄, h₅]
-    exact Or.inr ⟨_, _, _, _, R₄, hinf, hi₅, sol_cons hab₅ hR₄,
-      belowE_cons (below_mono hn₄ hbτt) hbτe hbE₄, by omega, below_mono hn₄ hbτt,
+    obtain ⟨S₅, N₅, h₅, hi₅, hbS₅⟩ := unifySF_complete S₄ n₄ τt τe E₄ R₄ hi₄ hR₄ hab₅ hbS₄
+      (below_mono hn₄ hbτt) hbτe
+    refine ⟨τt, S₅, n₄, _, R₄, N₁ + N₂ + N₃ + N₄ + N₅, ?_, hi₅, sol_cons hab₅ hR₄,
+      belowE_cons (below_mono hn₄ hbτt) hbτe hbE₄, hbS₅, by omega, below_mono hn₄ hbτt,
       agree_trans (agree_mono (by omega) hag₄) (agree_trans (agree_mono hn₁ hag₃) hag₁), hτt₄⟩
+    intro fuel hf
+    simp only [inferF, h₁ fuel (by omega), h₂ fuel (by omega), h₃ fuel (by omega),
+      h₄ fuel (by omega), h₅ fuel (by omega)]
 
 theorem complete_fcons (l : String) (e rest : Expr) (ihe : CompleteAt e) (ihr : CompleteAt rest) :
     CompleteAt (.fcons l e rest) := by
-  intro Γ S n E R Δ τ' hfr hi hR hbE hbΓ hΔ hty
+  intro Γ S n E R Δ τ' hfr hi hR hbE hbS hbΓ hΔ hty
   cases hty with
   | fcons _ _ _ _ τe ρ hte htr =>
-    rcases ihe Γ S n E R Δ _ hfr.1 hi hR hbE hbΓ hΔ hte with
-      h₁ | ⟨τ₁, S₁, n₁, E₁, R₁, h₁, hi₁, hR₁, hbE₁, hn₁, hbτ₁, hag₁, heq₁⟩
-    · exact Or.inl (by simp only [infer, h₁])
-    rcases ihr Γ S₁ n₁ E₁ R₁ Δ _ hfr.2 hi₁ hR₁ hbE₁ (belowΓ_mono hn₁ hbΓ)
-      (envC_agree Δ Γ R R₁ n hbΓ hag₁ hΔ) htr with
-      h₂ | ⟨ρ₂, S₂, n₂, E₂, R₂, h₂, hi₂, hR₂, hbE₂, hn₂, hbρ, hag₂, heq₂⟩
-    · exact Or.inl (by simp only [infer, h₁, h₂])
-    have hinf : infer false Γ (.fcons l e rest) S n = .ok (.ext l τ₁ ρ₂, S₂, n₂) := by
-      simp only [infer, h₁, h₂]
-    refine Or.inr ⟨_, _, _, E₂, R₂, hinf, hi₂, hR₂, hbE₂, by omega, ?_,
+    obtain ⟨τ₁, S₁, n₁, E₁, R₁, N₁, h₁, hi₁, hR₁, hbE₁, hbS₁, hn₁, hbτ₁, hag₁, heq₁⟩ :=
+      ihe Γ S n E R Δ _ hfr.1 hi hR hbE hbS hbΓ hΔ hte
+    obtain ⟨ρ₂, S₂, n₂, E₂, R₂, N₂, h₂, hi₂, hR₂, hbE₂, hbS₂, hn₂, hbρ, hag₂, heq₂⟩ :=
+      ihr Γ S₁ n₁ E₁ R₁ Δ _ hfr.2 hi₁ hR₁ hbE₁ hbS₁ (belowΓ_mono hn₁ hbΓ)
+        (envC_agree Δ Γ R R₁ n hbΓ hag₁ hΔ) htr
+    refine ⟨.ext l τ₁ ρ₂, S₂, n₂, E₂, R₂, N₁ + N₂, ?_, hi₂, hR₂, hbE₂, hbS₂, by omega, ?_,
       agree_trans (agree_mono hn₁ hag₂) hag₁, ?_⟩
+    · intro fuel hf
+      simp only [inferF, h₁ fuel (by omega), h₂ fuel (by omega)]
     · intro v hv
       simp only [Ty.ftv, List.mem_append] at hv
       rcases hv with hv | hv
@@ -430,15 +697,14 @@ theorem complete_fcons (l : String) (e rest : Expr) (ihe : CompleteAt e) (ihr : 
     · simp only [Ty.subst, subst_agree hbτ₁ hag₂, heq₁, heq₂]
 
 theorem complete_rcd (f : Expr) (ih : CompleteAt f) : CompleteAt (.rcd f) := by
-  intro Γ S n E R Δ τ' hfr hi hR hbE hbΓ hΔ hty
+  intro Γ S n E R Δ τ' hfr hi hR hbE hbS hbΓ hΔ hty
   cases hty with
   | rcd _ _ ρ htf =>
-    rcases ih Γ S n E R Δ _ hfr hi hR hbE hbΓ hΔ htf with
-      h₁ | ⟨ρ₁, S₁, n₁, E₁, R₁, h₁, hi₁, hR₁, hbE₁, hn₁, hbρ, hag₁, heq₁⟩
-    · exact Or.inl (by simp only [infer, h₁])
-    have hinf : infer false Γ (.rcd f) S n = .ok (tRec ρ₁, S₁, n₁) := by
-      simp only [infer, h₁]
-    refine Or.inr ⟨_, _, _, E₁, R₁, hinf, hi₁, hR₁, hbE₁, hn₁, ?_, hag₁, ?_⟩
+    obtain ⟨ρ₁, S₁, n₁, E₁, R₁, N₁, h₁, hi₁, hR₁, hbE₁, hbS₁, hn₁, hbρ, hag₁, heq₁⟩ :=
+      ih Γ S n E R Δ _ hfr hi hR hbE hbS hbΓ hΔ htf
+    refine ⟨tRec ρ₁, S₁, n₁, E₁, R₁, N₁, ?_, hi₁, hR₁, hbE₁, hbS₁, hn₁, ?_, hag₁, ?_⟩
+    · intro fuel hf
+      simp only [inferF, h₁ fuel hf]
     · intro v hv
       simp only [tRec, Ty.ftv, List.nil_append] at hv
       exact hbρ v hv
@@ -446,100 +712,109 @@ theorem complete_rcd (f : Expr) (ih : CompleteAt f) : CompleteAt (.rcd f) := by
 
 theorem complete_asnoc (init e : Expr) (ihi : CompleteAt init) (ihe : CompleteAt e) :
     CompleteAt (.asnoc init e) := by
-  intro Γ S n E R Δ τ' hfr hi hR hbE hbΓ hΔ hty
+  intro Γ S n E R Δ τ' hfr hi hR hbE hbS hbΓ hΔ hty
   cases hty with
   | asnoc _ _ _ τ₀ hti hte =>
-    rcases ihi Γ S n E R Δ _ hfr.1 hi hR hbE hbΓ hΔ hti with
-      h₁ | ⟨τi, S₁, n₁, E₁, R₁, h₁, hi₁, hR₁, hbE₁, hn₁, hbτi, hag₁, heq₁⟩
-    · exact Or.inl (by simp only [infer, h₁])
-    rcases ihe Γ S₁ n₁ E₁ R₁ Δ _ hfr.2 hi₁ hR₁ hbE₁ (belowΓ_mono hn₁ hbΓ)
-      (envC_agree Δ Γ R R₁ n hbΓ hag₁ hΔ) hte with
-      h₂ | ⟨τe, S₂, n₂, E₂, R₂, h₂, hi₂, hR₂, hbE₂, hn₂, hbτe, hag₂, heq₂⟩
-    · exact Or.inl (by simp only [infer, h₁, h₂])
+    obtain ⟨τi, S₁, n₁, E₁, R₁, N₁, h₁, hi₁, hR₁, hbE₁, hbS₁, hn₁, hbτi, hag₁, heq₁⟩ :=
+      ihi Γ S n E R Δ _ hfr.1 hi hR hbE hbS hbΓ hΔ hti
+    obtain ⟨τe, S₂, n₂, E₂, R₂, N₂, h₂, hi₂, hR₂, hbE₂, hbS₂, hn₂, hbτe, hag₂, heq₂⟩ :=
+      ihe Γ S₁ n₁ E₁ R₁ Δ _ hfr.2 hi₁ hR₁ hbE₁ hbS₁ (belowΓ_mono hn₁ hbΓ)
+        (envC_agree Δ Γ R R₁ n hbΓ hag₁ hΔ) hte
     have hτi₂ : τi.subst R₂ = tArr τ₀ := by rw [subst_agree hbτi hag₂, heq₁]
     have hab : τi.subst R₂ = (tArr τe).subst R₂ := by
       rw [hτi₂]; simp only [tArr, Ty.subst, heq₂]
-    rcases unifyS_complete S₂ n₂ τi (tArr τe) E₂ R₂ hi₂ hR₂ hab with h₃ | ⟨S₃, h₃, hi₃⟩
-    · exact Or.inl (by simp only [infer, h₁, h₂, h₃])
-    have hinf : infer false Γ (.asnoc init e) S n = .ok (τi, S₃, n₂) := by
-      simp only [infer, h₁, h₂, h₃]
-    refine Or.inr ⟨_, _, _, _, R₂, hinf, hi₃, sol_cons hab hR₂,
-      belowE_cons (below_mono hn₂ hbτi) ?_ hbE₂, by omega, below_mono hn₂ hbτi,
+    have hbarr : Below n₂ (tArr τe) := by
+      intro v hv
+      simp only [tArr, Ty.ftv, List.nil_append] at hv
+      exact hbτe v hv
+    obtain ⟨S₃, N₃, h₃, hi₃, hbS₃⟩ := unifySF_complete S₂ n₂ τi (tArr τe) E₂ R₂ hi₂ hR₂ hab hbS₂
+      (below_mono hn₂ hbτi) hbarr
+    refine ⟨τi, S₃, n₂, _, R₂, N₁ + N₂ + N₃, ?_, hi₃, sol_cons hab hR₂,
+      belowE_cons (below_mono hn₂ hbτi) hbarr hbE₂, hbS₃, by omega, below_mono hn₂ hbτi,
       agree_trans (agree_mono hn₁ hag₂) hag₁, hτi₂⟩
-    intro v hv
-    simp only [tArr, Ty.ftv, List.nil_append] at hv
-    exact hbτe v hv
+    intro fuel hf
+    simp only [inferF, h₁ fuel (by omega), h₂ fuel (by omega), h₃ fuel (by omega)]
 
-/-- Completeness and principality on the let-free, projection-free fragment, up to fuel. -/
+/-- Completeness and principality on the projection-free ML fragment (`let` included), for every
+    sufficiently large unification fuel. -/
 theorem infer_complete_aux : ∀ e : Expr, CompleteAt e := by
   intro e
   induction e with
   | var x => exact complete_var x
   | lam x b ih => exact complete_lam x b ih
   | app f a ihf iha => exact complete_app f a ihf iha
-  | letE x e b _ _ => intro Γ S n E R Δ τ' hfr; exact absurd hfr (by simp [LetProjFree])
+  | letE x e b ihe ihb => exact complete_let x e b ihe ihb
   | int k =>
-    intro Γ S n E R Δ τ' _ hi hR hbE _ _ hty
+    intro Γ S n E R Δ τ' _ hi hR hbE hbS _ _ hty
     cases hty
-    exact Or.inr ⟨tInt, S, n, E, R, by simp only [infer], hi, hR, hbE, Nat.le_refl _,
+    exact ⟨tInt, S, n, E, R, 0, fun fuel _ => by simp only [inferF], hi, hR, hbE, hbS, Nat.le_refl _,
       below_closed rfl, agree_refl n R, rfl⟩
   | str k =>
-    intro Γ S n E R Δ τ' _ hi hR hbE _ _ hty
+    intro Γ S n E R Δ τ' _ hi hR hbE hbS _ _ hty
     cases hty
-    exact Or.inr ⟨tString, S, n, E, R, by simp only [infer], hi, hR, hbE, Nat.le_refl _,
+    exact ⟨tString, S, n, E, R, 0, fun fuel _ => by simp only [inferF], hi, hR, hbE, hbS, Nat.le_refl _,
       below_closed rfl, agree_refl n R, rfl⟩
   | ifE c t e ihc iht ihe => exact complete_if c t e ihc iht ihe
   | lt a b iha ihb => exact complete_lt a b iha ihb
   | fnil =>
-    intro Γ S n E R Δ τ' _ hi hR hbE _ _ hty
+    intro Γ S n E R Δ τ' _ hi hR hbE hbS _ _ hty
     cases hty
-    exact Or.inr ⟨.empty, S, n, E, R, by simp only [infer], hi, hR, hbE, Nat.le_refl _,
+    exact ⟨.empty, S, n, E, R, 0, fun fuel _ => by simp only [inferF], hi, hR, hbE, hbS, Nat.le_refl _,
       below_closed rfl, agree_refl n R, rfl⟩
   | fcons l e rest ihe ihr => exact complete_fcons l e rest ihe ihr
   | rcd f ih => exact complete_rcd f ih
-  | proj e l _ => intro Γ S n E R Δ τ' hfr; exact absurd hfr (by simp [LetProjFree])
+  | proj e l _ => intro Γ S n E R Δ τ' hfr; exact absurd hfr (by simp [NoProj])
   | anil =>
-    intro Γ S n E R Δ τ' _ hi hR hbE _ _ hty
+    intro Γ S n E R Δ τ' _ hi hR hbE hbS _ _ hty
     cases hty with
     | anil _ τ₀ =>
       have hag : Agree n (upd R n τ₀) R := upd_agree R n τ₀
-      refine Or.inr ⟨tArr (.var n), S, n + 1, E, upd R n τ₀, by simp only [infer], hi, sol_agree hbE hag hR,
-        belowE_mono (Nat.le_succ n) hbE, Nat.le_succ n, ?_, hag, ?_⟩
+      refine ⟨tArr (.var n), S, n + 1, E, upd R n τ₀, 0, fun fuel _ => by simp only [inferF], hi,
+        sol_agree hbE hag hR, belowE_mono (Nat.le_succ n) hbE, belowS_mono (Nat.le_succ n) hbS,
+        Nat.le_succ n, ?_, hag, ?_⟩
       · intro v hv; simp only [tArr, Ty.ftv, List.nil_append, List.mem_singleton] at hv; omega
       · simp only [tArr, Ty.subst, upd_self]
   | asnoc init e ihi ihe => exact complete_asnoc init e ihi ihe
   | conA =>
-    intro Γ S n E R Δ τ' _ hi hR hbE _ _ hty
+    intro Γ S n E R Δ τ' _ hi hR hbE hbS _ _ hty
     cases hty with
     | conA _ τ₀ =>
       have hag : Agree n (upd R n τ₀) R := upd_agree R n τ₀
-      refine Or.inr ⟨fn (.var n) (tT (.var n)), S, n + 1, E, upd R n τ₀, by simp only [infer], hi, sol_agree hbE hag hR,
-        belowE_mono (Nat.le_succ n) hbE, Nat.le_succ n, ?_, hag, ?_⟩
+      refine ⟨fn (.var n) (tT (.var n)), S, n + 1, E, upd R n τ₀, 0, fun fuel _ => by simp only [inferF],
+        hi, sol_agree hbE hag hR, belowE_mono (Nat.le_succ n) hbE, belowS_mono (Nat.le_succ n) hbS,
+        Nat.le_succ n, ?_, hag, ?_⟩
       · intro v hv
         simp only [fn, tT, Ty.ftv, List.nil_append, List.mem_append, List.mem_singleton] at hv
         omega
       · simp only [fn, tT, Ty.subst, upd_self]
   | conB =>
-    intro Γ S n E R Δ τ' _ hi hR hbE _ _ hty
+    intro Γ S n E R Δ τ' _ hi hR hbE hbS _ _ hty
     cases hty with
     | conB _ τ₀ =>
       have hag : Agree n (upd R n τ₀) R := upd_agree R n τ₀
-      refine Or.inr ⟨tT (.var n), S, n + 1, E, upd R n τ₀, by simp only [infer], hi, sol_agree hbE hag hR,
-        belowE_mono (Nat.le_succ n) hbE, Nat.le_succ n, ?_, hag, ?_⟩
+      refine ⟨tT (.var n), S, n + 1, E, upd R n τ₀, 0, fun fuel _ => by simp only [inferF], hi,
+        sol_agree hbE hag hR, belowE_mono (Nat.le_succ n) hbE, belowS_mono (Nat.le_succ n) hbS,
+        Nat.le_succ n, ?_, hag, ?_⟩
       · intro v hv; simp only [tT, Ty.ftv, List.nil_append, List.mem_singleton] at hv; omega
       · simp only [tT, Ty.subst, upd_self]
 
-/-- Closed programs of the fragment: every declarative typing is an instance of the type `infer`
-    reports — unless the constant unification fuel runs out, which is a distinct answer. -/
-theorem infer_complete_principal_closed (e : Expr) (τ' : Ty) (hfr : LetProjFree e)
-    (h : HasType [] e τ') :
-    infer false [] e Subst.id 0 = .error .fuel ∨
-    ∃ τ S n', infer false [] e Subst.id 0 = .ok (τ, S, n') ∧ ∃ Q : Subst, τ' = (τ.subst S).subst Q := by
-  rcases infer_complete_aux e [] Subst.id 0 [] Subst.id [] τ' hfr inv_nil
-    (fun p hp => by cases hp) (fun p hp => by cases hp) (fun p hp => by cases hp) trivial h with
-    h₁ | ⟨τ, S', n', E', R', h₁, hi', hR', _, _, _, _, heq⟩
-  · exact Or.inl h₁
-  · refine Or.inr ⟨τ, S', n', h₁, R', ?_⟩
-    rw [inv_absorb S' E' hi' R' hR' τ, heq]
+/-- Closed programs of the ML fragment (projection-free, `let` included): there is a fuel from which
+    on `inferF` accepts the program, always with the same result, and every declarative typing is an
+    instance of the reported type. -/
+theorem inferF_complete_principal_closed (e : Expr) (hfr : NoProj e) (τ₀ : Ty) (h₀ : HasType [] e τ₀) :
+    ∃ τ S n' N, (∀ fuel, N ≤ fuel → inferF false fuel [] e Subst.id 0 = .ok (τ, S, n')) ∧
+      ∀ τ', HasType [] e τ' → ∃ Q : Subst, τ' = (τ.subst S).subst Q := by
+  have run : ∀ τ', HasType [] e τ' → CRes [] e Subst.id 0 Subst.id τ' := fun τ' h =>
+    infer_complete_aux e [] Subst.id 0 [] Subst.id [] τ' hfr inv_nil
+      (fun p hp => by cases hp) (fun p hp => by cases hp) (belowS_id 0) (fun p hp => by cases hp) trivial h
+  obtain ⟨τ, S', n', E', R', N, h₁, _⟩ := run τ₀ h₀
+  refine ⟨τ, S', n', N, h₁, fun τ' hτ' => ?_⟩
+  obtain ⟨τ₂, S₂, n₂, E₂, R₂, N₂, h₂, hi₂, hR₂, _, _, _, _, _, heq₂⟩ := run τ' hτ'
+  have hsame := (h₁ (N + N₂) (by omega)).symm.trans (h₂ (N + N₂) (by omega))
+  injection hsame with hsame
+  injection hsame with e₁ hsame
+  injection hsame with e₂ e₃
+  subst e₁; subst e₂
+  exact ⟨R₂, by rw [inv_absorb S' E₂ hi₂ R₂ hR₂ τ, heq₂]⟩
 
 end GluonModel.HM.Proofs
